@@ -25,15 +25,24 @@ type c17Op struct {
 	show  string
 }
 
+// c17Base: three values of the kind (fresh on every call); for times one in UTC and two in
+// other zones, since what is read back is the value set, zone included
+func c17Base(k Kind) []any {
+	if k.Type == j.AttrTypeTime {
+		return []any{TimeAlph[1], TimeAlph[4], TimeAlph[5]}
+	}
+	return BaseValues(k.Type, 3)
+}
+
 func c17Ops(k Kind) []c17Op {
 	var ops []c17Op
-	base := BaseValues(k.Type, 3)
+	base := c17Base(k)
 	for i := range base {
 		i := i
 		if k.Nullable {
-			ops = append(ops, c17Op{"k", func() any { return Ptr(BaseValues(k.Type, 3)[i]) }, "&" + ShowVal(base[i])})
+			ops = append(ops, c17Op{"k", func() any { return Ptr(c17Base(k)[i]) }, "&" + ShowVal(base[i])})
 		} else {
-			ops = append(ops, c17Op{"k", func() any { return BaseValues(k.Type, 3)[i] }, ShowVal(base[i])})
+			ops = append(ops, c17Op{"k", func() any { return c17Base(k)[i] }, ShowVal(base[i])})
 		}
 	}
 	if k.Nullable {
@@ -143,7 +152,7 @@ func c17Observe(impl string, k Kind, r j.Resource, model map[string]any, d TypeD
 			what, msg = "attr-def", fmt.Sprintf("%s: attribute k defined as %+v", impl, a)
 			return
 		}
-		if g := r.Get("k"); !SameAttrValue(g, model["k"]) || (!IsNilVal(g) && reflect.TypeOf(g) != k.GoType()) {
+		if g := r.Get("k"); !SameAttrValue(g, model["k"]) || (!IsNilVal(g) && reflect.TypeOf(g) != k.GoType()) || (!IsNilVal(g) && c17ZoneDiffers(g, model["k"])) {
 			what, msg = "get-attr", fmt.Sprintf("%s: Get(k) = %s, last value set (or zero) is %s", impl, ShowVal(g), ShowVal(model["k"]))
 			return
 		}
